@@ -198,6 +198,43 @@ static void closest_case(unsigned is, unsigned max)
     VP_CHECK(CAD[is][x] <= lastd, "closest: every omitted object is at least as far as the last returned one");
   if (r == 3 && OT[is] == HWLOC_OBJ_PU) closest_w3 = 1;
 }
+#ifndef NSLICE
+#define NSLICE 1
+#endif
+#ifndef SLICE
+#define SLICE 0
+#endif
+/* common ancestor of ANY two objects of seed S2 (normal, memory incl. the CPU-less node, bridge/PCI/OS device, Misc): brute force over parent chains */
+#define CA_MAX 20
+static hwloc_obj_t CAO[CA_MAX]; static unsigned CAN;
+static void ca_walk(hwloc_obj_t o)
+{
+  if (CAN < CA_MAX) CAO[CAN++] = o;
+  for (hwloc_obj_t c = o->memory_first_child; c; c = c->next_sibling) ca_walk(c);
+  for (hwloc_obj_t c = o->first_child; c; c = c->next_sibling) ca_walk(c);
+  for (hwloc_obj_t c = o->io_first_child; c; c = c->next_sibling) ca_walk(c);
+  for (hwloc_obj_t c = o->misc_first_child; c; c = c->next_sibling) ca_walk(c);
+}
+static unsigned ca_special;
+static void ca_case(unsigned i, unsigned j)
+{
+  hwloc_obj_t a = CAO[i], b = CAO[j];
+  hwloc_obj_t r = hwloc_get_common_ancestor_obj(T, a, b);
+  /* the deepest object that is an ancestor-or-self of both: the first element of a's chain that is on b's chain */
+  hwloc_obj_t e = NULL;
+  for (hwloc_obj_t x = a; x && !e; x = x->parent) for (hwloc_obj_t y = b; y; y = y->parent) if (x == y) { e = x; break; }
+  VP_CHECK(r == e && r != NULL, "common_ancestor: the deepest common ancestor of any two objects (never NULL)");
+  if (a->depth < 0 || b->depth < 0) ca_special++;
+}
+VP_HARNESS(h_common_ancestor_any)
+{
+  T = vp_seed_build(2, 0);
+  CAN = 0; ca_walk(T->levels[0][0]);
+  VP_CHECK(CAN >= 12 && CAN < CA_MAX, "seed S2 walked");
+  unsigned i = (unsigned) vp_in_range(0, CA_MAX - 1), j = (unsigned) vp_in_range(0, CA_MAX - 1), k = 0;
+  for (unsigned x = 0; x < CA_MAX; x++) for (unsigned y = 0; y < CA_MAX; y++, k++) if (x < CAN && y < CAN && (k % NSLICE) == SLICE && i == x && j == y) ca_case(x, y);
+  VP_WITNESS_IF(ca_special >= 1, "a pair with a memory, I/O or Misc object decided");
+}
 /* the source may be a memory object: NUMA nodes have a cpuset (what the documentation asks for) and live in a special level (negative depth) */
 VP_HARNESS(h_closest_numa)
 {
